@@ -58,7 +58,10 @@ pub fn check_aux(spec: &Spec, es: &ExtSpec, main: &[Vec<u128>], aux: &[Vec<Ext>]
         for step in 0..n - spec.exemptions {
             let m: Ext = [main[a.main_col][step], 0, 0];
             let want = match a.kind {
-                AuxKind::Product => es.mul(aux[k][step], es.add(m, r)),
+                AuxKind::Product => {
+                    let f = es.add(m, r);
+                    (0..a.pow).fold(aux[k][step], |acc, _| es.mul(acc, f))
+                },
                 AuxKind::Sum => es.add(aux[k][step], es.mul(r, m)),
             };
             if aux[k][step + 1] != want {
